@@ -848,6 +848,9 @@ func guardFact(p *packages.Package, fd *ast.FuncDecl, access ast.Expr, kind stri
 				return true
 			}
 			encloses := is.Body.Pos() <= access.Pos() && access.End() <= is.Body.End()
+			if is.Else != nil && is.Else.Pos() <= access.Pos() && access.End() <= is.Else.End() {
+				encloses = true // the other branch of the length test
+			}
 			exits := false
 			if k := len(is.Body.List); k > 0 {
 				switch l := is.Body.List[k-1].(type) {
